@@ -26,6 +26,7 @@ type GenCfg struct {
 	// feature switches (true = disabled)
 	NoVars, NoArith, NoMethods, NoDatetime, NoRegex, NoKeyvalue, NoPredItem bool
 	NoAny, NoFilter, NoIdx, NoLiteralRoot, NoDecimal, NoStartsWith         bool
+	NoWildKey                                                              bool
 	AccessorsOnly                                                          bool // C07: accessors and filters over them
 	ErrBias                                                                bool // more type mismatches
 	PredTopPct                                                             int  // share of predicate check expressions at top level
@@ -233,7 +234,7 @@ func (g *pgen) accessor(cx gctx) *Node {
 	ao := c.AccessorsOnly
 	switch g.choose("acc",
 		34,                                   // .key
-		8,                                    // .*
+		off(c.NoWildKey, 8),                  // .*
 		12,                                   // [*]
 		off(c.NoAny, 6),                      // .**
 		off(c.NoIdx, 12),                     // [subs]
